@@ -126,3 +126,10 @@ Proof.
     destruct (last_some sets_local ops) as [[a|]|]; reflexivity.
   - intros k. apply flags_bit_last_or_default.
 Qed.
+
+(* a setter outside the handshake's footprint (relay_select_host, the relay passwords, connect_timeout, tcp_nodelay, relay_websocket)
+   can be dropped from any call sequence without changing the configuration the handshake is built from *)
+Lemma build_app ops1 ops2 : build (ops1 ++ ops2) = fold_left apply ops2 (build ops1).
+Proof. unfold build. apply fold_left_app. Qed.
+Theorem other_setter_is_invisible ops1 ops2 : build (ops1 ++ OOther :: ops2) = build (ops1 ++ ops2).
+Proof. rewrite !build_app. reflexivity. Qed.
